@@ -294,7 +294,7 @@ PROPS["C09"] = dict(
     registered=True,
     level_text="Kernel-checked composition of the C08 finder model and the C07 transfer model: for any history, any acknowledged commons held by the receiver (i.e. however many negotiation rounds produced them), any depth, table selection and packfile size, every object the sender streams is accepted and afterwards the receiver holds EVERY ancestor of the want and loses nothing (C09_transfer_closed); the list is acceptable at every position; "
                "when the want is already an acknowledged common commit nothing is listed (idempotence of the selection). Runtime side: the real CLI (`wrgl fetch/push/pull`) is run against a reference server on generated repository pairs; the Lean driver evaluates the closure, depth, nothing-lost, object-identity and repeat-changes-nothing clauses on both repositories' observed state.",
-    level_note=LEVEL_NOTE + "PARTIAL: one want per theorem; the negotiation rounds are abstracted to 'acknowledged commons are commits the receiver holds'; the HTTP sessions (upload_pack_session.go / receive_pack_session.go), gzip, cookies and retries are exercised end to end but not modelled message by message; the reference server assembled in harness/refserver.go from the repository's own finder/sender/receiver is trusted harness code.",
+    level_note=LEVEL_NOTE + "PARTIAL: the negotiation rounds are abstracted to 'acknowledged commons are commits the receiver holds'; the HTTP sessions (upload_pack_session.go / receive_pack_session.go), gzip, cookies and retries are exercised end to end but not modelled message by message; the reference server assembled in harness/refserver.go from the repository's own finder/sender/receiver is trusted harness code.",
     lean_modules=["WrglModel.Props.C09"],
     quick_n=120, thorough_n=800, rule=_SYNC_RULE,
     modelled="the closure a successful fetch / push must establish, composed from the C08 finder and C07 transfer models; upload_pack_session.go / receive_pack_session.go are exercised end to end, not modelled message by message",
@@ -344,6 +344,7 @@ for _k, _v in _WIDEN_N.items():
     PROPS[_k].setdefault('widen_n', _v)
 
 _LEVEL_EXTRA = {
+    "C09": " Also: C09_tables_within_depth (the receiver ends with the table of every commit of the want's history within the requested depth, given that commons' tables are present at the receiver) and C09_transfer_closed_multi (several wants in one exchange).",
     "C05": " The per-cell decision chain is additionally tied to the source by a regenerated guard table: extract/paths.go lists the guards in front of every unresolveCol(i) of tryResolve, and C05_unresolve_table_is_model proves over all 216 situations of a step that the table fires exactly when the model's cellStep marks the column unresolved. Column-changing branches: the by-name resolution `resolveRecCols` used for them is proved to coincide with the same-columns resolution when all tables share the base's columns (C05_cols_model_extends_same).",
     "C06": " Block index codec: round trip, re-encoding and injectivity (C06_blockIndex_*); the pre-allocation cap of the decoders is extracted as never bounding a read loop.",
     "C08": " Across wants: C08_all_wants (one whole call of enqueueWants: closed for every non-pending want, acceptable at every position, sound). Across the round's bookkeeping: C08_accepts_reachable_wants and C08_process_sound (Process accepts exactly the wants reachable from refs whatever the timestamps; every ack is a have that is an ancestor of a ref).",
